@@ -77,6 +77,44 @@ def version_and_trim(F, S):
     return out
 
 
+def width_log2(F, S):
+    """The width written is a function of the stored width alone: GetWidthInTilesLog2(w) returns Log2OfPowerOf2(w) on every
+    returning path (a separate `return 0` is acceptable only under a test on w itself that leaves w <= 1). A width that
+    depends on anything else (the tile count, the height) changes the dimensions of a map that has that something unusual."""
+    from ..rules_sib import enclosing_if_cond
+    from ..prove import term_cond_facts, prove_le
+    gw, is_host = F.fn_or_host(M + "::GetWidthInTilesLog2", 1, M + "::CreateHeader", host_nparams=0)
+    if is_host:
+        return []           # inlined into CreateHeader: header_fields judges the expression stored there
+    w = P(gw, 0)
+    out = []
+    inst = M + "::GetWidthInTilesLog2#function-of-width"
+    req = "every returning path yields Log2OfPowerOf2(width): the written width depends on the stored width only"
+    want = F.call_value("OP2Utility::Log2OfPowerOf2", None, (w,))
+    problems = []
+    for r in returns(gw):
+        t = gw.xterm(r["value"])
+        if t == want:
+            continue
+        cid, in_then = enclosing_if_cond(gw, r["id"])
+        okz = False
+        if t == ("const", 0) and cid is not None:
+            ct = gw.term(cid)
+            fs = term_cond_facts(ct, bool(in_then)) or set()
+            from ..flow import subterms
+            only_w = all(st[0] != "var" or st == w for st in subterms(ct)) and not any(st[0] in ("mem", "call", "size", "this") for st in subterms(ct))
+            okz = only_w and prove_le(set(fs), w, ("const", 1))
+        if not okz:
+            problems.append((r, t))
+    if not problems:
+        out.append(ok("R-SIB", inst, gw.loc(gw.body), gw.qn, req, "all returns are Log2OfPowerOf2(width)"))
+    else:
+        r, t = problems[0]
+        out.append(bad("R-SIB", inst, gw.loc(r["id"]), gw.qn, req, "a path returns %s%s" % (
+            fmt_term(t), " under a condition that is not about the width" if t == ("const", 0) else "")))
+    return out
+
+
 def header_fields(F, S):
     """CreateHeader copies every header field from the map; ReadMapBeginning copies them back (saved-game flag as bool)."""
     out = []
@@ -175,6 +213,7 @@ def check(F, run, tier):
     o, c = c14.r_narrow_prefix(F, S)
     run.add(o)
     run.add(header_fields(F, S))
+    run.add(width_log2(F, S))
     run.add(c19.debruijn(F))
     run.add(c16.accessors(F, S))
     run.add(c16.cell_type_guard(F, S))
